@@ -78,7 +78,7 @@ def T_gl(p):
 
 
 class FnFnmatch(Chain):
-    module, qual, props = 'fnmatch', 'fnmatch', ('C01', 'C11', 'C08')
+    module, qual, props = 'fnmatch', 'fnmatch', ('C01', 'C11', 'C08', 'C17', 'C20')
     params = [('filename', 'obj')] + _PLQ
     hooks = dict(FL.PLATFORM_HOOKS, _flag_transform=h_T_fn)
     callees = _FN_CALLEES
@@ -87,7 +87,7 @@ class FnFnmatch(Chain):
 
 
 class FnFilter(Chain):
-    module, qual, props = 'fnmatch', 'filter', ('C01', 'C11')
+    module, qual, props = 'fnmatch', 'filter', ('C01', 'C11', 'C17', 'C20')
     params = [('filenames', 'obj')] + _PLQ
     hooks = dict(FL.PLATFORM_HOOKS, _flag_transform=h_T_fn)
     callees = _FN_CALLEES
@@ -96,7 +96,7 @@ class FnFilter(Chain):
 
 
 class FnCompile(Chain):
-    module, qual, props = 'fnmatch', 'compile', ('C01', 'C11')
+    module, qual, props = 'fnmatch', 'compile', ('C01', 'C11', 'C17', 'C20')
     params = _PLQ
     hooks = dict(FL.PLATFORM_HOOKS, _flag_transform=h_T_fn)
     callees = _FN_CALLEES
@@ -105,7 +105,7 @@ class FnCompile(Chain):
 
 
 class FnTranslate(Chain):
-    module, qual, props = 'fnmatch', 'translate', ('C08', 'C11')
+    module, qual, props = 'fnmatch', 'translate', ('C08', 'C11', 'C17', 'C20')
     params = _PLQ
     hooks = dict(FL.PLATFORM_HOOKS, _flag_transform=h_T_fn)
     callees = _FN_CALLEES
@@ -134,7 +134,7 @@ _GL = [('root_dir', 'obj'), ('dir_fd', 'obj')]
 
 
 class GlGlobmatch(Chain):
-    module, qual, props = 'glob', 'globmatch', ('C02', 'C11', 'C08', 'C04')
+    module, qual, props = 'glob', 'globmatch', ('C02', 'C11', 'C08', 'C04', 'C17', 'C20')
     params = [('filename', 'obj'), ('patterns', 'obj'), ('flags', 'bv')] + _GL + [('limit', 'int'), ('exclude', 'obj')]
     hooks = dict(FL.PLATFORM_HOOKS, _flag_transform=h_T_glob)
     callees = _FN_CALLEES
@@ -143,7 +143,7 @@ class GlGlobmatch(Chain):
 
 
 class GlGlobfilter(Chain):
-    module, qual, props = 'glob', 'globfilter', ('C02', 'C11', 'C04')
+    module, qual, props = 'glob', 'globfilter', ('C02', 'C11', 'C04', 'C17', 'C20')
     params = [('filenames', 'obj'), ('patterns', 'obj'), ('flags', 'bv')] + _GL + [('limit', 'int'), ('exclude', 'obj')]
     hooks = dict(FL.PLATFORM_HOOKS, _flag_transform=h_T_glob)
     callees = _FN_CALLEES
@@ -152,7 +152,7 @@ class GlGlobfilter(Chain):
 
 
 class GlCompile(Chain):
-    module, qual, props = 'glob', 'compile', ('C02', 'C11')
+    module, qual, props = 'glob', 'compile', ('C02', 'C11', 'C17', 'C20')
     params = _PLQ
     hooks = dict(FL.PLATFORM_HOOKS, _flag_transform=h_T_glob)
     callees = _FN_CALLEES
@@ -161,7 +161,7 @@ class GlCompile(Chain):
 
 
 class GlTranslate(Chain):
-    module, qual, props = 'glob', 'translate', ('C08', 'C11')
+    module, qual, props = 'glob', 'translate', ('C08', 'C11', 'C17', 'C20')
     params = _PLQ
     hooks = dict(FL.PLATFORM_HOOKS, _flag_transform=h_T_glob)
     callees = _FN_CALLEES
@@ -198,7 +198,7 @@ def GLOBOBJ(p):
 
 
 class GlGlob(Chain):
-    module, qual, props = 'glob', 'glob', ('C12', 'C11', 'C05')
+    module, qual, props = 'glob', 'glob', ('C12', 'C11', 'C05', 'C17', 'C20')
     params = _GLOBP
     callees = {'iglob': ('glob', 'iglob')}
     clause = 'glob.glob.is_list(iglob(same arguments))'
@@ -212,7 +212,7 @@ def h_yield_from(eng, y, st):
 
 
 class GlIglob(Chain):
-    module, qual, props = 'glob', 'iglob', ('C12', 'C11', 'C05')
+    module, qual, props = 'glob', 'iglob', ('C12', 'C11', 'C05', 'C17', 'C20')
     params = _GLOBP
     callees = {'Glob': ('glob', 'Glob.__init__')}
     hooks = {'yield from': h_yield_from}
@@ -233,7 +233,7 @@ EXTMB = WC['_EXTMATCHBASE']
 
 
 class PlMatch(Chain):
-    module, qual, props = 'pathlib', 'PurePath.match', ('C16', 'C11')
+    module, qual, props = 'pathlib', 'PurePath.match', ('C16', 'C11', 'C17', 'C20')
     params = _PP
     callees = {'self.globmatch': ('pathlib', 'PurePath.globmatch')}
     clause = 'pathlib.match.is_self.globmatch(patterns,flags|_EXTMATCHBASE,limit,exclude)'
@@ -250,7 +250,7 @@ def _pl_globmatch_expected(p):
 
 
 class PlGlobmatch(Chain):
-    module, qual, props = 'pathlib', 'PurePath.globmatch', ('C16', 'C11')
+    module, qual, props = 'pathlib', 'PurePath.globmatch', ('C16', 'C11', 'C17', 'C20')
     params = _PP
     callees = {'glob.globmatch': ('glob', 'globmatch')}
     hooks = {'self._translate_flags': h_translate_flags}
@@ -265,7 +265,7 @@ class PlFullMatch(PlGlobmatch):
 
 
 class PlRglob(Chain):
-    module, qual, props = 'pathlib', 'Path.rglob', ('C16', 'C11')
+    module, qual, props = 'pathlib', 'Path.rglob', ('C16', 'C11', 'C17', 'C20')
     params = _PP
     callees = {'self.glob': ('pathlib', 'Path.glob')}
     hooks = {'yield from': h_yield_from}
@@ -292,7 +292,7 @@ def _h_iglob(eng, node, st, args):
 class PlGlob(Contract):
     """Path.glob: nothing if not a directory; otherwise iglob(patterns, flags=T(flags|_NOABSOLUTE)|_PATHLIB[|SCANDOTDIR],
     root_dir=str(self), limit, exclude) and each result is yielded as self.joinpath(result), in order."""
-    module, qual, props = 'pathlib', 'Path.glob', ('C16', 'C11')
+    module, qual, props = 'pathlib', 'Path.glob', ('C16', 'C11', 'C17', 'C20')
     assumptions = ('glob.iglob returns an abstract finite sequence; self.is_dir()/joinpath/str are pure',)
     pure = ('is_dir', 'joinpath')
     GL = pyvc.consts_of('glob')[0]
